@@ -116,8 +116,13 @@ def run_case(c):
     res = {"problems": [], "model_in": [], "model_obs": []}
     try:
         files = {k: os.path.join(d, {"class": "classes.py", "function": "methods.py", "argparse_function": "argparse.py"}[k]) for k in KINDS}
+        shared = c.get("shared")     # (truth kind, other kind): both targets live in ONE module, listed under both options
+        if shared:
+            files[shared[1]] = files[shared[0]]
         for k in KINDS:
             st = c["states"][k]
+            if shared and k in shared:
+                continue
             if st == "missing":
                 continue
             if st == "empty":
@@ -135,6 +140,11 @@ def run_case(c):
                 src_ir = c["gold"] if (st == "equal" or k == c["truth"]) else c["irs"][k]
             body = emit_src(k, src_ir)
             open(files[k], "w").write(c["before"][k] + ("\n\n" if c["before"][k] else "") + body + "\n" + c["after"][k].replace("{name}", NAMES[k]))
+        if shared:
+            parts = [c["before"][shared[0]], emit_src(shared[0], c["gold"])]
+            if c["states"][shared[1]] == "different":
+                parts.append(emit_src(shared[1], c["irs"][shared[1]]))
+            open(files[shared[0]], "w").write("\n\n".join(x for x in parts if x) + "\n")
         gold_src_before = open(files[c["truth"]]).read()
         gold_irs, _t = parse_target(c["truth"], gold_src_before)
         if not gold_irs:
@@ -183,7 +193,7 @@ def run_case(c):
             res["problems"].append(("truth-interface-changed/%s" % c["truth"], {}))
         for k in KINDS:
             src = first[k]
-            tag = "%s-target/truth-%s/%s" % (k, c["truth"], c["states"][k])
+            tag = "%s-target/truth-%s/%s%s" % (k, c["truth"], c["states"][k], "/same-module-as-the-truth" if shared and k == shared[1] else "")
             rebound = "{name}" in c["after"][k] and k != "class" and c["states"][k] not in ("missing", "empty")
             if rebound:
                 # `train = register(train)` after a function / argparse target carries the same _location as the def: the def is left
@@ -211,7 +221,7 @@ def run_case(c):
                 else:
                     for cls, det in diffs[:3]:
                         res["problems"].append(("target-differs-from-truth/%s/%s" % (tag, cls), det))
-            if pre[k] is not None and pre[k]["others"] != others_dump(tree, k):
+            if pre[k] is not None and pre[k]["others"] != others_dump(tree, k) and not (shared and k in shared):
                 res["problems"].append(("code-outside-target-changed/" + tag, {}))
             # model observation
             obs = []
@@ -221,6 +231,8 @@ def run_case(c):
                     obs.append(["d", NAMES[k], "gold" if not ir.get("unparsable") and not same_iface(k, ir, gold, c["truth"]) else "old"])
                 else:
                     obs.append(["o", 0])
+            if shared and k in shared:
+                continue        # the decision-table model is per file with one listed target
             gname = {"class": gold.get("name") or "ConfigClass", "function": NAMES[k], "argparse_function": "set_cli_args"}[k]
             res["model_in"].append([{"class": "class", "function": "function", "argparse_function": "argparse"}[k], NAMES[k], "gold",
                                     bool(pre[k] and pre[k]["found"]), None if pre[k] is None else pre[k]["items"], gname])
@@ -230,7 +242,8 @@ def run_case(c):
                 if "{name}" in c["after"][k] and k != "class":
                     continue
                 if snaps[r][k] != snaps[r - 1][k]:
-                    res["problems"].append(("run-%d-changed-file/%s-target/truth-%s/%s" % (r + 1, k, c["truth"], c["states"][k]),
+                    res["problems"].append(("run-%d-changed-file/%s-target/truth-%s/%s%s" % (r + 1, k, c["truth"], c["states"][k],
+                                                                                                "/two-kinds-in-one-module" if shared and k in shared else ""),
                                             {"len_before": len(snaps[r - 1][k] or ""), "len_after": len(snaps[r][k] or "")}))
     finally:
         shutil.rmtree(d, ignore_errors=True)
@@ -245,8 +258,15 @@ def gen_case(rng):
     gold = gen_ir(rng)
     if rng.random() < 0.25:
         gold = drop_docs(gold)      # a truth without any prose: the emitted class then has no docstring
-    return {"truth": truth, "states": states, "gold": gold, "irs": {k: gen_ir(rng) for k in KINDS},
-            "before": {k: rng.choice(BEFORE) for k in KINDS}, "after": {k: rng.choice(AFTER) for k in KINDS}, "runs": rng.randint(1, 3)}
+    c = {"truth": truth, "states": states, "gold": gold, "irs": {k: gen_ir(rng) for k in KINDS},
+         "before": {k: rng.choice(BEFORE) for k in KINDS}, "after": {k: rng.choice(AFTER) for k in KINDS}, "runs": rng.randint(1, 3)}
+    if truth != "function" and rng.random() < 0.15:
+        # the config class and its argparse function side by side in one module, that module given for both kinds
+        other = "class" if truth == "argparse_function" else "argparse_function"
+        c["shared"] = [truth, other]
+        c["states"][other] = rng.choice(["different", "missing"])
+        c["after"][truth] = c["after"][other] = ""
+    return c
 
 
 def enc_obj(x):
